@@ -1492,6 +1492,16 @@ func (fc *FC) ElementDefs(res *RF) (defs []ElemDef, why string) {
 // while idx < n (tested at the header), and it cannot be left from inside an
 // iteration.
 func (b *B) FullScan(rule, construct, where string, fc *FC, idx, n *RF) bool {
+	return b.fullScanFrom(rule, construct, where, fc, idx, n, 0)
+}
+
+// FullScanSeeded: like FullScan for an accumulation whose initial value
+// already is element 0: the loop may start at index 0 or at index 1.
+func (b *B) FullScanSeeded(rule, construct, where string, fc *FC, idx, n *RF) bool {
+	return b.fullScanFrom(rule, construct, where, fc, idx, n, 1)
+}
+
+func (b *B) fullScanFrom(rule, construct, where string, fc *FC, idx, n *RF, maxFirst int64) bool {
 	s := b.X.S
 	var k *RF
 	for _, ph := range fc.loopPhis(idx) {
@@ -1511,11 +1521,15 @@ func (b *B) FullScan(rule, construct, where string, fc *FC, idx, n *RF) bool {
 	lfc := b.X.phiFC[kat.ID]
 	hdr := b.X.phiOf[kat.ID].Block()
 	ki, kn := lfc.Recurrence(k)
+	if kn.Equal(k.Sub(s.Int(1))) {
+		// a descending scan: from n-1 down to 0, while 0 <= index
+		return b.fullScanDown(rule, construct, where, lfc, hdr, k, ki, idx, n)
+	}
 	if !kn.Equal(k.Add(s.Int(1))) {
 		b.R.Fail(rule, construct, where, "the counter does not advance by 1 per iteration: "+clip(kn.String(), 80))
 		return false
 	}
-	if first := idx.Subst(map[AtomID]*RF{kat.ID: ki}); !first.Equal(s.Int(0)) {
+	if first := idx.Subst(map[AtomID]*RF{kat.ID: ki}); !first.Equal(s.Int(0)) && !(maxFirst >= 1 && first.Equal(s.Int(1))) {
 		b.R.Fail(rule, construct, where, "the first index visited is "+clip(first.String(), 80)+", not 0")
 		return false
 	}
@@ -1581,15 +1595,16 @@ func (b *B) TDistCDF(rule string) {
 		env := X.EnvFor(fn, "t", "x")
 		pos := "(1-0.5*mathx.BetaInc(t.V/(t.V+x*x), t.V/2, 0.5))"
 		eq0, gt0, lt0 := env.MustParse("x==0"), env.MustParse("0<x"), env.MustParse("x<0")
+		nan := env.MustParse("isnan(x)")
 		cases := []struct {
 			tag  string
 			as   []Assumption
 			spec string
 		}{
-			{"x==0", []Assumption{{Cond: eq0, True: true}}, "0.5"},
-			{"x>0", []Assumption{{Cond: eq0, True: false}, {Cond: gt0, True: true}}, pos},
-			{"x<0", []Assumption{{Cond: eq0, True: false}, {Cond: gt0, True: false}, {Cond: lt0, True: true}}, "0.5*mathx.BetaInc(t.V/(t.V+x*x), t.V/2, 0.5)"},
-			{"x NaN", []Assumption{{Cond: eq0, True: false}, {Cond: gt0, True: false}, {Cond: lt0, True: false}}, "nan()"},
+			{"x==0", []Assumption{{Cond: eq0, True: true}, {Cond: nan, True: false}}, "0.5"},
+			{"x>0", []Assumption{{Cond: eq0, True: false}, {Cond: gt0, True: true}, {Cond: nan, True: false}}, pos},
+			{"x<0", []Assumption{{Cond: eq0, True: false}, {Cond: gt0, True: false}, {Cond: lt0, True: true}, {Cond: nan, True: false}}, "0.5*mathx.BetaInc(t.V/(t.V+x*x), t.V/2, 0.5)"},
+			{"x NaN", []Assumption{{Cond: eq0, True: false}, {Cond: gt0, True: false}, {Cond: lt0, True: false}, {Cond: nan, True: true}}, "nan()"},
 		}
 		for _, c := range cases {
 			fc := X.Under(fn, c.as...)
@@ -1809,4 +1824,55 @@ func (fc *FC) InvariantEq(expr, want *RF) bool {
 		return false
 	}
 	return expr.Subst(initSub).Equal(want) && expr.Subst(nextSub).Equal(expr)
+}
+
+// fullScanDown: the descending form of FullScan (index n-1, n-2, …, 0).
+func (b *B) fullScanDown(rule, construct, where string, lfc *FC, hdr *ssa.BasicBlock, k, ki, idx, n *RF) bool {
+	s := b.X.S
+	kat := k.SingleAtom()
+	if first := idx.Subst(map[AtomID]*RF{kat.ID: ki}); !first.Equal(n.Sub(s.Int(1))) {
+		b.R.Fail(rule, construct, where, "the first index of the descending scan is "+clip(first.String(), 80)+", not "+clip(n.String(), 40)+"-1")
+		return false
+	}
+	ifi, ok := hdr.Instrs[len(hdr.Instrs)-1].(*ssa.If)
+	if !ok {
+		b.R.Fail(rule, construct, where, "the loop has no bound test at its header")
+		return false
+	}
+	cond := lfc.Val(ifi.Cond)
+	want := s.Cmp("<=", s.Int(0), idx)
+	if !(cond.Equal(want) || b.X.EquivByCases(cond, want, 0)) {
+		b.R.Fail(rule, construct, where, "the descending loop runs while "+clip(cond.String(), 120)+", not while 0 <= index: not every element is visited")
+		return false
+	}
+	var l *Loop
+	for _, ll := range lfc.Ctx.Loops() {
+		if ll.Header == hdr {
+			l = ll
+		}
+	}
+	if l == nil || !l.Body[hdr.Succs[0].Index] {
+		b.R.Fail(rule, construct, where, "the bound test does not lead into the loop body")
+		return false
+	}
+	for bi := range l.Body {
+		blk := lfc.Fn.Blocks[bi]
+		if blk == hdr {
+			continue
+		}
+		for _, sc := range lfc.Ctx.LiveSuccs(blk) {
+			if !l.Body[sc.Index] {
+				last := sc.Instrs[len(sc.Instrs)-1]
+				_, isPanic := last.(*ssa.Panic)
+				_, isRet := last.(*ssa.Return)
+				if (isPanic || isRet) && sc != hdr.Succs[1] {
+					continue
+				}
+				b.R.Fail(rule, construct, where, "the loop can be left from inside an iteration (not every element is visited)")
+				return false
+			}
+		}
+	}
+	b.R.OK(rule, construct, where, "visits every index "+clip(n.String(), 40)+"-1..0 once, in descending order")
+	return true
 }
